@@ -1,0 +1,27 @@
+//go:build verif
+
+package storage
+
+// Test seams for the /verif machinery (property C09). They let an external
+// harness hold a shared MemCachedStore's read lock, so that a Persist (queued
+// for the write lock) and a reader (queued behind that writer) can be released
+// in a known order. They do not change the store.
+
+// VerifRLock takes the store's read lock exactly as a long-running reader does.
+func (s *MemCachedStore) VerifRLock() { s.rlock() }
+
+// VerifRUnlock drops the read lock taken by VerifRLock.
+func (s *MemCachedStore) VerifRUnlock() { s.runlock() }
+
+// VerifWriterPending reports whether some goroutine holds or is queued for the
+// store's write lock (a read lock cannot be taken right now).
+func (s *MemCachedStore) VerifWriterPending() bool {
+	if s.private {
+		return false
+	}
+	if s.mut.TryRLock() {
+		s.mut.RUnlock()
+		return false
+	}
+	return true
+}
